@@ -517,10 +517,46 @@ func Loosen(v ref.V) ref.V {
 	return v
 }
 
-// Enumerates reports whether the expression text may enumerate object
-// members (wildcard, keys, values, items).
+// Enumerates reports whether the expression enumerates object members
+// (object wildcard, keys, values, items): decided on the reference AST; for
+// texts the reference parser does not accept, a crude textual test.
 func Enumerates(text string) bool {
-	return strings.Contains(text, "*") || strings.Contains(text, "keys") || strings.Contains(text, "values") || strings.Contains(text, "items")
+	if v, ok := enumCache[text]; ok {
+		return v
+	}
+	pr := ref.Parse(text)
+	var res bool
+	if pr.Status == ref.ParseOK {
+		res = astEnumerates(pr.Node)
+	} else {
+		t := strings.ReplaceAll(text, "[*]", "")
+		res = strings.Contains(t, "*") || strings.Contains(t, "keys") || strings.Contains(t, "values") || strings.Contains(t, "items")
+	}
+	if len(enumCache) > 50000 {
+		enumCache = map[string]bool{}
+	}
+	enumCache[text] = res
+	return res
+}
+
+var enumCache = map[string]bool{}
+
+func astEnumerates(n *ref.Node) bool {
+	if n == nil {
+		return false
+	}
+	if n.Kind == ref.NValProj {
+		return true
+	}
+	if n.Kind == ref.NFunc && (n.Name == "keys" || n.Name == "values" || n.Name == "items") {
+		return true
+	}
+	for _, k := range n.Kids {
+		if astEnumerates(k) {
+			return true
+		}
+	}
+	return false
 }
 
 // runCase runs one case; a panic that escapes here is a defect of the harness
